@@ -3,7 +3,10 @@ package c13
 import (
 	"encoding/json"
 	"fmt"
+	"os"
 	"time"
+
+	"verif/internal/tlsx"
 )
 
 // ---- JSON configuration of the two service instances ------------------------------------------
@@ -54,6 +57,58 @@ func directClient(tfo bool) obj {
 	return obj{"name": "direct", "protocol": "direct", "network": "ip4", "enableTCP": true, "dialerTFO": tfo, "tcpFastOpenFallback": true}
 }
 
+// ---- throw-away certificates (internal/tlsx), written to files like an operator would ----------
+
+type certFiles struct {
+	ca          *tlsx.CA
+	front, back *tlsx.Leaf
+}
+
+const (
+	frontTLSName = "front.c13.test"
+	backTLSName  = "back.c13.test"
+)
+
+// tlsFiles is set by every test function before it runs cases (setupCerts).
+var tlsFiles *certFiles
+
+func setupCerts(dir string) error {
+	ca, err := tlsx.NewCA("c13 harness CA")
+	if err != nil {
+		return err
+	}
+	cf := &certFiles{ca: ca}
+	if cf.front, err = ca.Issue("front", frontTLSName, "127.0.0.1"); err != nil {
+		return err
+	}
+	if cf.back, err = ca.Issue("back", backTLSName, "127.0.0.1"); err != nil {
+		return err
+	}
+	tag := fmt.Sprintf("c13-%d", os.Getpid())
+	if err = ca.WriteFiles(dir, tag+"-ca"); err != nil {
+		return err
+	}
+	if err = cf.front.WriteFiles(dir, tag+"-front"); err != nil {
+		return err
+	}
+	if err = cf.back.WriteFiles(dir, tag+"-back"); err != nil {
+		return err
+	}
+	tlsFiles = cf
+	return nil
+}
+
+// certsCfg is the top-level "certs" object of service.Config (tlscerts.Config).
+func certsCfg() obj {
+	return obj{
+		"certLists": []obj{
+			{"name": "front-cert", "certs": []obj{{"certPath": tlsFiles.front.CertPath, "keyPath": tlsFiles.front.KeyPath}}},
+			{"name": "back-cert", "certs": []obj{{"certPath": tlsFiles.back.CertPath, "keyPath": tlsFiles.back.KeyPath}}},
+		},
+		"x509CertPools": []obj{{"name": "harness-ca", "certPaths": []string{tlsFiles.ca.CertPath}}},
+	}
+}
+
 // backConfig: the second instance: one server speaking c.Client's protocol, dialling targets directly.
 func backConfig(c casePlan) []byte {
 	srv := obj{"name": "back", "tcpListeners": []obj{listener(time.Duration(c.BackTMs)*time.Millisecond, 0, c.BackDisableWait)}}
@@ -65,8 +120,15 @@ func backConfig(c casePlan) []byte {
 		}
 	case "http":
 		srv["protocol"] = "http"
+		h := obj{}
 		if c.ChainAuth {
-			srv["http"] = obj{"enableBasicAuth": true, "users": []obj{{"username": chainUser, "password": chainPass}}}
+			h["enableBasicAuth"], h["users"] = true, []obj{{"username": chainUser, "password": chainPass}}
+		}
+		if c.ChainTLS {
+			h["enableTLS"], h["certList"] = true, "back-cert"
+		}
+		if len(h) > 0 {
+			srv["http"] = h
 		}
 	case "none":
 		srv["protocol"] = "none"
@@ -79,21 +141,65 @@ func backConfig(c casePlan) []byte {
 		"clients": []obj{directClient(c.DialerTFO)},
 		"api":     apiCfg(),
 	}
+	if c.Client == "http" && c.ChainTLS {
+		cfg["certs"] = certsCfg()
+	}
 	b, _ := json.Marshal(cfg)
 	return b
 }
 
 // frontNames returns the server names of the front instance: one server, except for the
 // tunnel ("direct") protocol whose destination is fixed per server.
+//
+// An ss2022 server's fallback destination is fixed per server too: the first visitor shares the
+// server "front" with the case's genuine Shadowsocks clients, every further visitor gets a
+// server of its own ("front-v<i>") with the same keys.
 func frontNames(c casePlan) []string {
-	if c.Server != "direct" {
-		return []string{"front"}
+	if c.Server == "direct" {
+		out := make([]string, len(c.Conns))
+		for i := range out {
+			out[i] = fmt.Sprintf("front-%d", i)
+		}
+		return out
 	}
-	out := make([]string, len(c.Conns))
-	for i := range out {
-		out[i] = fmt.Sprintf("front-%d", i)
+	out := []string{"front"}
+	first := true
+	for i := range c.Conns {
+		if c.isVisitor(i) {
+			if !first {
+				out = append(out, fmt.Sprintf("front-v%d", i))
+			}
+			first = false
+		}
 	}
 	return out
+}
+
+// frontServerOf names the front server connection i connects to.
+func frontServerOf(c casePlan, i int) string {
+	if c.Server == "direct" {
+		return fmt.Sprintf("front-%d", i)
+	}
+	if c.isVisitor(i) {
+		for j := 0; j < i; j++ {
+			if c.isVisitor(j) {
+				return fmt.Sprintf("front-v%d", i)
+			}
+		}
+	}
+	return "front"
+}
+
+// fallbackTargetOf returns the fallback destination of the named ss2022 front server: the target
+// of the visitor that uses it, or - when no visitor of this case does - a destination nobody is
+// ever sent to (the option is still configured and genuine clients pass through the server).
+func fallbackTargetOf(c casePlan, name string, targets []string) string {
+	for i := range c.Conns {
+		if c.isVisitor(i) && frontServerOf(c, i) == name {
+			return targets[i]
+		}
+	}
+	return "127.13.99.1:9"
 }
 
 // frontConfig: the instance under test. targets[i] is the textual destination of connection i.
@@ -114,12 +220,19 @@ func frontServers(c casePlan, targets []string, upskPath string) []obj {
 			}
 		case "http":
 			srv["protocol"] = "http"
+			h := obj{}
 			if c.Auth {
 				var us []obj
 				for i := range c.Conns {
 					us = append(us, obj{"username": userName(i), "password": userPass(i)})
 				}
-				srv["http"] = obj{"enableBasicAuth": true, "users": us}
+				h["enableBasicAuth"], h["users"] = true, us
+			}
+			if c.TLS {
+				h["enableTLS"], h["certList"] = true, "front-cert"
+			}
+			if len(h) > 0 {
+				srv["http"] = h
 			}
 		case "none":
 			srv["protocol"] = "none"
@@ -131,6 +244,12 @@ func frontServers(c casePlan, targets []string, upskPath string) []obj {
 			srv["psk"] = keyFor("frontpsk", c.AES256)
 			if c.Auth {
 				srv["uPSKStorePath"] = upskPath
+			}
+			if c.Fallback {
+				srv["unsafeFallbackAddress"] = fallbackTargetOf(c, name, targets)
+			}
+			if c.AllowSegmented {
+				srv["allowSegmentedFixedLengthHeader"] = true
 			}
 		}
 		servers = append(servers, srv)
@@ -156,8 +275,18 @@ func frontConfig(c casePlan, targets []string, ports []uint16, backAddr, upskPat
 			}
 		case "http":
 			cl["protocol"] = "http"
+			h := obj{}
 			if c.ChainAuth {
-				cl["http"] = obj{"username": chainUser, "password": chainPass, "useBasicAuth": true}
+				h["username"], h["password"], h["useBasicAuth"] = chainUser, chainPass, true
+			}
+			if c.ChainTLS {
+				h["useTLS"], h["rootCAs"] = true, "harness-ca"
+				if c.ChainServerName {
+					h["serverName"] = backTLSName
+				} // else inferred from the endpoint address: 127.0.0.1, an IP SAN of the certificate
+			}
+			if len(h) > 0 {
+				cl["http"] = h
 			}
 		case "none":
 			cl["protocol"] = "none"
@@ -192,6 +321,9 @@ func frontConfig(c casePlan, targets []string, ports []uint16, backAddr, upskPat
 			"routes":               routes,
 		},
 		"api": apiCfg(),
+	}
+	if (c.Server == "http" && c.TLS) || (c.Client == "http" && c.ChainTLS) {
+		cfg["certs"] = certsCfg()
 	}
 	b, _ := json.Marshal(cfg)
 	return b
